@@ -1,10 +1,48 @@
 import Genshi.Wire
+import Driver.C01
+import Driver.C02
+import Driver.C03
+import Driver.C04
+import Driver.C05
+import Driver.C06
+import Driver.C07
+import Driver.C08
+import Driver.C09
+import Driver.C10
+import Driver.C11
+import Driver.C12
+import Driver.C13
+import Driver.C14
+import Driver.C15
+import Driver.C16
+import Driver.C17
 import Driver.C18
+import Driver.C19
+import Driver.C20
 open Genshi
 
-/-- dispatch on the property tag (first token), then the verb -/
+/-- dispatch on the property tag (first token); the rest is the property's own verb -/
 def dispatch : List Sexp → Option Sexp
+  | .atom "C01" :: rest => Driver.C01.handle rest
+  | .atom "C02" :: rest => Driver.C02.handle rest
+  | .atom "C03" :: rest => Driver.C03.handle rest
+  | .atom "C04" :: rest => Driver.C04.handle rest
+  | .atom "C05" :: rest => Driver.C05.handle rest
+  | .atom "C06" :: rest => Driver.C06.handle rest
+  | .atom "C07" :: rest => Driver.C07.handle rest
+  | .atom "C08" :: rest => Driver.C08.handle rest
+  | .atom "C09" :: rest => Driver.C09.handle rest
+  | .atom "C10" :: rest => Driver.C10.handle rest
+  | .atom "C11" :: rest => Driver.C11.handle rest
+  | .atom "C12" :: rest => Driver.C12.handle rest
+  | .atom "C13" :: rest => Driver.C13.handle rest
+  | .atom "C14" :: rest => Driver.C14.handle rest
+  | .atom "C15" :: rest => Driver.C15.handle rest
+  | .atom "C16" :: rest => Driver.C16.handle rest
+  | .atom "C17" :: rest => Driver.C17.handle rest
   | .atom "C18" :: rest => Driver.C18.handle rest
+  | .atom "C19" :: rest => Driver.C19.handle rest
+  | .atom "C20" :: rest => Driver.C20.handle rest
   | [.atom "ping"] => some (.atom "pong")
   | _ => none
 
